@@ -108,10 +108,18 @@ RECURSIVE MdsPat(_, _)
 MdsPat(s, last) == IF s = <<>> THEN ""
                    ELSE LET x == IF Head(s).h \in OtherMds THEN "B" ELSE "A"
                         IN (IF x = last THEN "" ELSE x) \o MdsPat(Tail(s), x)
+\* an updated descriptor whose children are created / deleted in the same transaction: how many of them were staged
+\* before and after it (the parent's version is raised once per child while the items are applied in staging order,
+\* and set from the staged copy when its own item is reached)
+KidsOf(t, i, rng) == Cap2(Cardinality({j \in rng : t.d[j].op \in {"crt", "del"} /\ t.d[j].parent = t.d[i].h}))
+ParentPat(t, how) ==
+  {"P:" \o ToString(KidsOf(t, i, 1..(i - 1))) \o ":" \o ToString(KidsOf(t, i, (i + 1)..Len(t.d))) \o ":" \o how
+     : i \in {j \in 1..Len(t.d) : t.d[j].op = "upd" /\ KidsOf(t, j, 1..Len(t.d)) > 0}}
 SitOf(t, how) ==
   {"T:" \o t.kind \o ":" \o how \o ":" \o (IF t.rej = 1 THEN "rej" ELSE "-")
         \o ":" \o (IF t.d = <<>> /\ t.s = <<>> /\ t.c = <<>> THEN "empty" ELSE "-")}
   \cup (IF t.s # <<>> /\ how = "commit" THEN {"M:" \o t.kind \o ":" \o MdsPat(t.s, "")} ELSE {})
+ \cup ParentPat(t, how)
   \cup (IF t.kb >= 0 THEN {"K:" \o t.kind \o ":behind" \o ToString(t.kb) \o ":" \o how} ELSE {})
   \cup {"D:" \o t.d[i].op \o ":" \o Kind[t.d[i].h] \o ":" \o ToString(Fan(t.d[i].h)) \o ":" \o how : i \in 1..Len(t.d)}
   \cup {"S:" \o t.s[i].op \o ":" \o t.s[i].via \o ":" \o Kind[t.s[i].h] \o ":" \o t.kind \o ":" \o how : i \in 1..Len(t.s)}
